@@ -20,6 +20,8 @@ enum Expect {
     IfUnsatisfied,
     /// nothing could be changed (e.g. no commitment to swap): skip
     NotApplicable,
+    /// decided when the deviation was made (true: must be rejected)
+    Decided(bool),
 }
 
 struct Deviation<G: AffineRepr> {
@@ -53,7 +55,7 @@ fn strip_com(lc: &mut Vec<(Var, Sc)>, j: usize) {
     lc.retain(|(v, _)| *v != Var::Com(j));
 }
 
-fn deviate<G: CurveTag>(ch: &mut Choices, prog: &Program, commitments: &[G]) -> Deviation<G> {
+fn deviate<G: CurveTag>(ch: &mut Choices, prog: &Program, commitments: &[G], pm: &crate::model::Model<<G as AffineRepr>::ScalarField>) -> Deviation<G> {
     let mut p = prog.clone();
     let mut c = commitments.to_vec();
     let m = c.len();
@@ -67,7 +69,7 @@ fn deviate<G: CurveTag>(ch: &mut Choices, prog: &Program, commitments: &[G]) -> 
                 return na("different-commitment");
             }
             let j = ch.below(m);
-            let how = ch.below(8);
+            let how = ch.below(9);
             let new: G = match how {
                 0 => (c[j].into_group() + pc.B.into_group()).into_affine(),
                 1 => (c[j].into_group() + pc.B_blinding.into_group()).into_affine(),
@@ -76,6 +78,7 @@ fn deviate<G: CurveTag>(ch: &mut Choices, prog: &Program, commitments: &[G]) -> 
                 4 => (-c[j].into_group()).into_affine(),
                 5 => G::same_x_other_y(&c[j]).unwrap_or(c[j]),
                 6 => (c[j].into_group() + c[j].into_group()).into_affine(),
+                8 => G::off_curve_twin(&c[j]).unwrap_or(c[j]),
                 _ => match crate::props::c13::small_order_point::<G>() {
                     Some(t) => (c[j].into_group() + t.into_group()).into_affine(),
                     None => (c[j].into_group() - pc.B.into_group()).into_affine(),
@@ -85,7 +88,7 @@ fn deviate<G: CurveTag>(ch: &mut Choices, prog: &Program, commitments: &[G]) -> 
                 return na("different-commitment");
             }
             c[j] = new;
-            Deviation { prog: p, commitments: c, pc: None, kind: format!("different-commitment:{}", ["V+B", "V+B_blinding", "random", "another V", "-V", "same x other y", "2V", "V+T / V-B"][how]), expect: Expect::Context }
+            Deviation { prog: p, commitments: c, pc: None, kind: format!("different-commitment:{}", ["V+B", "V+B_blinding", "random", "another V", "-V", "same x other y", "2V", "V+T / V-B", "off-curve object with the same compressed encoding"][how]), expect: Expect::Context }
         }
         // an extra commitment
         1 => {
@@ -152,6 +155,47 @@ fn deviate<G: CurveTag>(ch: &mut Choices, prog: &Program, commitments: &[G]) -> 
             }
             c.swap(i, j);
             Deviation { prog: p, commitments: c, pc: None, kind: "reordered-commitments".into(), expect: Expect::Context }
+        }
+        // a changed coefficient or constant in an operand of `multiply` (the proof's assignment
+        // decides: it fits the changed gate only if the operand still evaluates to the same value)
+        4 if ch.chance(70) && p.ops.iter().any(|o| matches!(o, Op::Mul { .. }) || matches!(o, Op::Closure(b) if b.iter().any(|x| matches!(x, Op::Mul { .. })))) => {
+            let mut sites: Vec<(ListRef, usize)> = vec![];
+            for l in crate::props::c02::lists(&p) {
+                let ops: &Vec<Op> = match l {
+                    None => &p.ops,
+                    Some(k) => match &p.ops[k] {
+                        Op::Closure(b) => b,
+                        _ => unreachable!(),
+                    },
+                };
+                for (j, op) in ops.iter().enumerate() {
+                    if matches!(op, Op::Mul { .. }) {
+                        sites.push((l, j));
+                    }
+                }
+            }
+            let site = sites[ch.below(sites.len())];
+            let right_side = ch.chance(128);
+            let d = ScalarSpec::gen_nonzero(ch);
+            let mut decided = false;
+            let mut what = "constant-added";
+            if let Op::Mul { left, right } = &mut list_mut(&mut p, site.0)[site.1] {
+                let lc = if right_side { right } else { left };
+                let before = pm.eval_terms(&pm.resolve(lc));
+                if !lc.is_empty() && ch.chance(170) {
+                    let t = ch.below(lc.len());
+                    lc[t].1 = match &lc[t].1 {
+                        Sc::C(ScalarSpec::One) => Sc::C(ScalarSpec::Small(2)),
+                        Sc::C(ScalarSpec::Small(k)) => Sc::C(ScalarSpec::Small(k + 1)),
+                        _ => Sc::C(d),
+                    };
+                    what = "coefficient";
+                } else {
+                    lc.push((Var::One, Sc::C(d)));
+                }
+                decided = pm.eval_terms(&pm.resolve(lc)) != before;
+            }
+            Deviation { prog: p, commitments: c, pc: None, kind: format!("multiply-operand-changed:{}:{}", what, if right_side { "right" } else { "left" }), expect: Expect::Decided(decided) }
         }
         // a changed coefficient or constant in a constraint
         4 => {
@@ -379,7 +423,7 @@ fn case<G: CurveTag>(bytes: &[u8], col: &mut Collector) -> Result<(), Failure> {
         col.nontrivial(fp_of(&(prog.fingerprint(), "interchange")));
         return Ok(());
     }
-    let d = deviate::<G>(&mut chi, &prog, &p.commitments);
+    let d = deviate::<G>(&mut chi, &prog, &p.commitments, &p.model);
     if d.expect == Expect::NotApplicable {
         col.class(&format!("n/a:{}", d.kind.split(':').next().unwrap_or("")));
         return Ok(());
@@ -389,6 +433,7 @@ fn case<G: CurveTag>(bytes: &[u8], col: &mut Collector) -> Result<(), Failure> {
         Expect::Context => true,
         Expect::IfUnsatisfied => !v.model.satisfied(),
         Expect::NotApplicable => false,
+        Expect::Decided(b) => b,
     };
     if !must_reject {
         col.class(&format!("trivial:still-satisfied:{}", d.kind.split(':').next().unwrap_or("")));
